@@ -177,6 +177,15 @@ def glue_cross_check(ctx, report, status):
     except Exception:  # Unsupported: already reported by build_and_audit (translate())  # pylint: disable=broad-except
         return
     report.translator_checks += 1
+    try:
+        from translator import cbca_glue_selftest
+
+        probs, ran, skipped = cbca_glue_selftest.problems()
+        report.count("glue_selftest_entries", ran)
+        for what in probs:
+            status.problem("translator", f"glue reader self-test: {what}")
+    except Exception as exc:  # pylint: disable=broad-except
+        status.problem("translator", f"glue reader self-test crashed: {type(exc).__name__}: {exc}")
     K = glue.all_kernels(ag, sup)
     _, cbca = ad._mods()  # pylint: disable=protected-access
     rng = random.Random(ctx.seed * 104729 + 77)
@@ -200,6 +209,7 @@ def glue_cross_check(ctx, report, status):
 
         def w_cross(image, *a, _f=real["cross_support"]):
             seen["cross"].append(tuple(image.shape))
+            seen.setdefault("inf", []).append(np.isinf(image).copy())
             return _f(image, *a)
 
         def w_step(tag, f):
@@ -234,6 +244,37 @@ def glue_cross_check(ctx, report, status):
             want.append(glue.evaluate_crop(K, "rightCrop", H, W if k == 0 else W - 1, off, k)[2:])
         if [tuple(s) for s in cross_shapes] != [tuple(s) for s in want]:
             problem("shapes of the arrays handed to cross_support", f"case H={H} W={W} off={off} subpix={subpix}: real {cross_shapes} translated {want}")
+        # ---- which pixels are +inf in the arrays handed to cross_support: the translated meaning of the mask statements
+        SK = sup["kernels"]
+        offs = sup["meaning"].get("shiftMaskOffsets", [])
+
+        def masked_pattern(msk, side, k, width):
+            pat = np.zeros((H, width), dtype=bool)
+            if msk is None:
+                return pat
+            for y in range(H):
+                for x in range(width):
+                    if side == "left":
+                        pat[y, x] = glue.ev_scalar(SK["leftMaskGuard"], True) and glue.ev_scalar(SK["leftMaskTest"], int(msk[y][x]), 0, 1)
+                    else:
+                        a = glue.ev_scalar(SK["rightMaskGuard"], True, k) and glue.ev_scalar(SK["rightMaskTest"], int(msk[y][x]), 0, 1)
+                        b = glue.ev_scalar(SK["shiftMaskGuard"], True, k) and any(
+                            glue.ev_scalar(SK["shiftMaskTest"], int(msk[y + dy][x + dx]), 0, 1) for dy, dx in offs)
+                        pat[y, x] = a or b
+            return pat
+
+        infs = seen.get("inf", [])[:len(cross_shapes)]
+        preds = []
+        box = glue.evaluate_crop(K, "leftCrop", H, W, off)
+        preds.append(masked_pattern(case["mskL"], "left", 0, W)[box[0]:box[0] + box[2], box[1]:box[1] + box[3]])
+        for k in range(subpix):
+            wk = W if k == 0 else W + sup["meaning"].get("shiftMaskWidthDelta", -1)
+            box = glue.evaluate_crop(K, "rightCrop", H, wk, off, k)
+            preds.append(masked_pattern(case["mskR"], "right", k, wk)[box[0]:box[0] + box[2], box[1]:box[1] + box[3]])
+        for i, (real_inf, pred) in enumerate(zip(infs, preds)):
+            report.count("glue_prepared_images")
+            if real_inf.shape != pred.shape or not np.array_equal(real_inf, pred):
+                problem("masked (+inf) pixels of an image handed to cross_support", f"image {i} (0 = left, then the shifts): real {real_inf.astype(int).tolist()} translated {pred.astype(int).tolist()}")
         # ---- the volume the loop works on, and where the result goes
         r0, c0, h, w = glue.evaluate_crop(K, "cvCrop", H, W, off)
         wb = glue.evaluate_crop(K, "writeBack", H, W, off)
